@@ -199,61 +199,13 @@ def evalOut (c : Ctx) (e : Expr) (ln : Option Nat) : Out Int :=
 def messageText (kind : Str) (msg : Str) (ln : Nat) : Str :=
   kind ++ ": ".toList ++ msg ++ " in line: ".toList ++ natToDec ln
 
-mutual
-/-- `parse_iter` : `ls` are the remaining (0-based line index, text) pairs of the iterator -/
-def parseIter (fs : Fs) (cur : Str) (incs : List Str) :
-    Nat → PState → NextItem → List (Nat × Str) → Out (PState × List Str)
-  | 0, _, _, _ => .oof
-  | f + 1, st, ni, ls =>
-    -- skip()
-    let sk : PState × Option (Nat × Str) × Bool × List (Nat × Str) × Bool :=
-      match ni with
-      | .newLine =>
-        match ls with
-        | [] => (st, none, false, [], false)
-        | l :: rest => (st, some l, false, rest, false)
-      | .endFile => (st, none, false, [], false)
-      | .endMacro =>
-        let (body, nx, rest, o) := skipMacro [] ls
-        ({ st with macros := ainsert st.macroName body st.macros }, nx, false, rest, o)
-      | .endIf => let (nx, re, rest, o) := skipCond false 0 ls; (st, nx, re, rest, o)
-      | .endIfAll => let (nx, re, rest, o) := skipCond true 0 ls; (st, nx, re, rest, o)
-    let (st, nx, redelivered, rest, o) := sk
-    if o then .oof else
-    match nx with
-    | none => .ok (st, incs)
-    | some (idx, text) =>
-      let ln := idx + 1
-      match parseLine text with
-      | (_, true) => .oof
-      | (none, _) => lineErr ln "syntax"
-      | (some doc, _) =>
-        match doc with
-        | .label name => parseIter fs cur incs f (st.pushToLast ln (.label name)) .newLine rest
-        | .codeLine lab op args =>
-          let st := match lab with
-            | some n => st.pushToLast ln (.label n)
-            | none => st
-          parseIter fs cur incs f (st.pushToLast ln (.instruction op args)) .newLine rest
-        | .directiveLine lab d ops =>
-          let st := match lab with
-            | some n => st.pushToLast ln (.label n)
-            | none => st
-          if d = .else ∨ (d = .elif ∧ !redelivered) then
-            parseIter fs cur incs f st .endIfAll rest
-          else
-            match directiveParse fs cur incs f st d ops ln with
-            | .ok (st', incs', ni') => parseIter fs cur incs' f st' ni' rest
-            | .error e => .error e
-            | .panic s => .panic s
-            | .oof => .oof
-        | .emptyLine => parseIter fs cur incs f st .newLine rest
+/-- the `.include` handler handed to `Directive::parse`: path as written, include set of the
+    including file, state → state after the file -/
+abbrev IncludeFn := Str → List Str → PState → Out PState
 
 /-- `Directive::parse` : new state, new include set of this file, what to skip next -/
-def directiveParse (fs : Fs) (cur : Str) (incs : List Str) :
-    Nat → PState → Directive → DirectiveOps → Nat → Out (PState × List Str × NextItem)
-  | 0, _, _, _, _ => .oof
-  | f + 1, st, d, ops, ln =>
+def directiveParse (inc : IncludeFn) (cur : Str) (incs : List Str)
+    (st : PState) (d : Directive) (ops : DirectiveOps) (ln : Nat) : Out (PState × List Str × NextItem) :=
     let ok (st : PState) : Out (PState × List Str × NextItem) := .ok (st, incs, .newLine)
     let first : Option Operand := match ops with
       | .opList l => l.head?
@@ -326,8 +278,8 @@ def directiveParse (fs : Fs) (cur : Str) (incs : List Str) :
       | _, _ => lineErr ln "device-args"
     | .include =>
       match ops, first with
-      | .opList _, some (.s inc) =>
-        match parseFileInternal fs inc incs f st with
+      | .opList _, some (.s path) =>
+        match inc path incs st with
         | .ok st' => .ok (st', incs, .newLine)
         | .error e => .error e
         | .panic s => .panic s
@@ -335,11 +287,11 @@ def directiveParse (fs : Fs) (cur : Str) (incs : List Str) :
       | _, _ => lineErr ln "include-args"
     | .includepath =>
       match ops, first with
-      | .opList _, some (.s inc) =>
-        if isAbs inc then .ok (st, pathsInsert inc incs, .newLine)
+      | .opList _, some (.s path) =>
+        if isAbs path then .ok (st, pathsInsert path incs, .newLine)
         else
           match pathParent cur with
-          | some par => .ok (st, pathsInsert (pathPush par inc) incs, .newLine)
+          | some par => .ok (st, pathsInsert (pathPush par path) incs, .newLine)
           | none => .panic "includepath: current_path.parent().unwrap()"
       | _, _ => lineErr ln "includepath-args"
     | .if | .elif =>
@@ -382,11 +334,69 @@ def directiveParse (fs : Fs) (cur : Str) (incs : List Str) :
     | .custom _ => lineErr ln "custom-directive"
     | _ => lineErr ln "unsupported-directive"
 
-/-- `parse_file_internal` for the path `path` as written, with the includer's include set -/
-def parseFileInternal (fs : Fs) (path : Str) (incs : List Str) :
-    Nat → PState → Out PState
-  | 0, _ => .oof
-  | f + 1, st =>
+/-- the `skip` call at the head of the `parse_iter` loop: state (macro bodies are stored here),
+    line to continue with, whether it is a re-delivered `.elif`, remaining lines, out-of-fuel -/
+def skipStep (st : PState) (ni : NextItem) (ls : List (Nat × Str)) :
+    PState × Option (Nat × Str) × Bool × List (Nat × Str) × Bool :=
+  match ni with
+  | .newLine =>
+    match ls with
+    | [] => (st, none, false, [], false)
+    | l :: rest => (st, some l, false, rest, false)
+  | .endFile => (st, none, false, [], false)
+  | .endMacro =>
+    let (body, nx, rest, o) := skipMacro [] ls
+    ({ st with macros := ainsert st.macroName body st.macros }, nx, false, rest, o)
+  | .endIf => let (nx, re, rest, o) := skipCond false 0 ls; (st, nx, re, rest, o)
+  | .endIfAll => let (nx, re, rest, o) := skipCond true 0 ls; (st, nx, re, rest, o)
+
+/-- the body of the `parse_iter` loop for one delivered line (0-based index, text) -/
+def lineStep (inc : IncludeFn) (cur : Str) (incs : List Str) (st : PState) (idx : Nat) (text : Str)
+    (redelivered : Bool) : Out (PState × List Str × NextItem) :=
+  let ln := idx + 1
+  match parseLine text with
+  | (_, true) => .oof
+  | (none, _) => lineErr ln "syntax"
+  | (some doc, _) =>
+    match doc with
+    | .label name => .ok (st.pushToLast ln (.label name), incs, .newLine)
+    | .codeLine lab op args =>
+      let st := match lab with
+        | some n => st.pushToLast ln (.label n)
+        | none => st
+      .ok (st.pushToLast ln (.instruction op args), incs, .newLine)
+    | .directiveLine lab d ops =>
+      let st := match lab with
+        | some n => st.pushToLast ln (.label n)
+        | none => st
+      if d = .else ∨ (d = .elif ∧ !redelivered) then .ok (st, incs, .endIfAll)
+      else directiveParse inc cur incs st d ops ln
+    | .emptyLine => .ok (st, incs, .newLine)
+
+/-- `parse_iter` : `ls` are the remaining (0-based line index, text) pairs of the iterator.  The
+    first argument bounds the number of loop iterations; `ls.length + 1` always suffices, since
+    every iteration consumes at least one line. -/
+def parseIterWith (inc : IncludeFn) (cur : Str) :
+    Nat → List Str → PState → NextItem → List (Nat × Str) → Out (PState × List Str)
+  | 0, _, _, _, _ => .oof
+  | lf + 1, incs, st, ni, ls =>
+    match skipStep st ni ls with
+    | (_, _, _, _, true) => .oof
+    | (st, none, _, _, false) => .ok (st, incs)
+    | (st, some (idx, text), redelivered, rest, false) =>
+      match lineStep inc cur incs st idx text redelivered with
+      | .ok (st', incs', ni') => parseIterWith inc cur lf incs' st' ni' rest
+      | .error e => .error e
+      | .panic s => .panic s
+      | .oof => .oof
+
+def numbered (ls : List Str) : List (Nat × Str) := List.zip (List.range ls.length) ls
+
+/-- `parse_file_internal` for the path `path` as written, with the includer's include set; the
+    first argument bounds the include nesting (the Rust recursion has no bound of its own) -/
+def parseFileAt (fs : Fs) : Nat → IncludeFn
+  | 0, _, _, _ => .oof
+  | d + 1, path, incs, st =>
     let resolved : Str :=
       if fs.exists path then path
       else
@@ -400,17 +410,20 @@ def parseFileInternal (fs : Fs) (path : Str) (incs : List Str) :
         | some par => pathsInsert par incs
         | none => incs
       let ls := lines src
-      match parseIter fs resolved incs' f st .newLine (List.zip (List.range ls.length) ls) with
+      match parseIterWith (parseFileAt fs d) resolved (ls.length + 1) incs' st .newLine (numbered ls) with
       | .ok (st', _) => .ok st'
       | .error e => .error e
       | .panic s => .panic s
       | .oof => .oof
-end
 
-/-- fuel for a parse: every line costs one iteration plus one directive step; includes nest at
-    most `includeDepth` deep in any run the correspondence check makes -/
-def parseFuel (fs : Fs) (src : Str) : Nat :=
-  2 * ((lines src).length + (fs.files.foldl (fun a p => a + (lines p.2).length + 2) 0)) * 16 + 64
+/-- include nesting the model follows before giving up (`oof`); the Rust code recurses until the
+    stack overflows — see C16 -/
+def includeDepth : Nat := 64
+
+/-- `parse_iter` as the code calls it -/
+def parseIter (fs : Fs) (cur : Str) (incs : List Str) (st : PState) (ni : NextItem)
+    (ls : List (Nat × Str)) : Out (PState × List Str) :=
+  parseIterWith (parseFileAt fs includeDepth) cur (ls.length + 1) incs st ni ls
 
 /-- `ParseResult` -/
 structure ParseResult where
@@ -426,9 +439,7 @@ def PState.asParseResult (st : PState) : ParseResult :=
 
 /-- `parse_str` : the current path is the working directory, the include set is empty -/
 def parseStr (fs : Fs) (src : Str) (ctx : Ctx) : Out (PState) :=
-  let ls := lines src
-  match parseIter fs fs.cwd [] (parseFuel fs src) (PState.init ctx) .newLine
-      (List.zip (List.range ls.length) ls) with
+  match parseIter fs fs.cwd [] (PState.init ctx) .newLine (numbered (lines src)) with
   | .ok (st, _) => .ok st
   | .error e => .error e
   | .panic s => .panic s
@@ -436,6 +447,6 @@ def parseStr (fs : Fs) (src : Str) (ctx : Ctx) : Out (PState) :=
 
 /-- `parse_file` -/
 def parseFile (fs : Fs) (path : Str) (incs : List Str) (ctx : Ctx) : Out PState :=
-  parseFileInternal fs path (incs.foldl (fun acc p => pathsInsert p acc) []) (parseFuel fs []) (PState.init ctx)
+  parseFileAt fs (includeDepth + 1) path (incs.foldl (fun acc p => pathsInsert p acc) []) (PState.init ctx)
 
 end Avra.Model
